@@ -836,7 +836,9 @@ class FunctionBuilder:
         if inspect.iscoroutinefunction(func):
             kwargs['is_async'] = True
 
-        return cls(**kwargs)
+        fb = cls(**kwargs)
+        fb.doc = kwargs['doc']  # a missing docstring stays None, not ''
+        return fb
 
     def get_func(self, execdict=None, add_source=True, with_dict=True):
         """Compile and return a new function based on the current values of
